@@ -23,7 +23,8 @@ FILES = ["xeofs/base_model.py", "xeofs/data_container/data_container.py",
          "xeofs/preprocessing/dimension_renamer.py", "xeofs/preprocessing/concatenator.py",
          "xeofs/preprocessing/whitener.py", "xeofs/preprocessing/pca.py", "xeofs/preprocessing/preprocessor.py",
          "xeofs/single/base_model_single_set.py", "xeofs/single/eof.py", "xeofs/single/eof_rotator.py",
-         "xeofs/single/pop.py", "xeofs/single/opa.py",
+         "xeofs/single/pop.py", "xeofs/single/opa.py", "xeofs/single/eeof.py", "xeofs/single/sparse_pca.py",
+         "xeofs/cross/mca.py", "xeofs/cross/cca.py", "xeofs/cross/rda.py",
          "xeofs/cross/base_model_cross_set.py", "xeofs/cross/cpcca.py", "xeofs/cross/cpcca_rotator.py"]
 
 # bases outside the package that carry no xeofs state
@@ -33,7 +34,9 @@ FOREIGN_METHODS = {"get_params", "set_params", "items", "keys", "values", "get"}
 
 TRANSFORMERS = ["Scaler", "Stacker", "Sanitizer", "MultiIndexConverter", "DimensionRenamer", "Concatenator",
                 "Whitener", "PCA", "Preprocessor"]
-MODELS = ["BaseModelSingleSet", "BaseModelCrossSet", "EOFRotator", "CPCCARotator", "POP", "OPA"]
+MODELS = ["BaseModelSingleSet", "BaseModelCrossSet", "EOFRotator", "CPCCARotator", "POP", "OPA",
+          # the concrete single-inheritance model classes as well
+          "EOF", "ComplexEOF", "HilbertEOF", "ExtendedEOF", "SparsePCA", "CPCCA", "ComplexCPCCA", "HilbertCPCCA", "MCA", "CCA", "RDA"]
 CLASSES = TRANSFORMERS + ["DataContainer"] + MODELS
 
 TRANSFORMER_ENTRY = ["transform", "inverse_transform_data", "inverse_transform_components",
@@ -195,7 +198,9 @@ def field_writes(fn):
             d = try_dotted(n.value)
             if d and d.startswith("self.") and d.count(".") == 1:
                 out.append(d.split(".")[1])
-        if isinstance(n, ast.Call) and isinstance(n.func, ast.Attribute) and n.func.attr in MUTATORS:
+        if isinstance(n, ast.Call) and isinstance(n.func, ast.Attribute) \
+                and (n.func.attr in MUTATORS or n.func.attr.startswith("fit")):
+            # self.X.fit(...) / self.X.fit_transform(...) change the state of the object held by X
             d = try_dotted(n.func.value)
             if d and d.startswith("self.") and d.count(".") == 1:
                 out.append(d.split(".")[1])
@@ -243,6 +248,23 @@ def container_serialized(classes):
     if "container[key] = node[key]" not in des or "container._allow_compute[key] = node.attrs['allow_compute']" not in des:
         raise TransError("DataContainer.deserialize: items / allow_compute not restored")
     return ["<items>", "_allow_compute"]
+
+
+def custom_restored(chain, name):
+    """attributes restored by a class's own `deserialize` beyond the generic loop over the tree attributes:
+    Preprocessor.deserialize rebuilds every slot named by transformer_types()"""
+    r = chain.resolve("deserialize")
+    if r is None or chain.names[r[0]] in ("Transformer", "BaseModel", "DataContainer"):
+        return []
+    src = ast.unparse(r[1])
+    if "transformer_types()" not in src or "setattr(preprocessor, name, deserialized)" not in src \
+            or "transformer_obj.transformers.append(deserialized)" not in src:
+        raise TransError("%s.deserialize: unknown custom deserialisation" % name)
+    t = chain.resolve("transformer_types")
+    ret = [x for x in ast.walk(t[1]) if isinstance(x, ast.Return)]
+    if len(ret) != 1 or not (isinstance(ret[0].value, ast.Call) and try_dotted(ret[0].value.func) == "dict" and not ret[0].value.args):
+        raise TransError("transformer_types does not return dict(k=...)")
+    return [kw.arg for kw in ret[0].value.keywords]
 
 
 def ctor_params(chain, name):
@@ -337,7 +359,7 @@ def analyse(classes, name):
     if name in MODELS:
         pkeys = params_keys(chain, inits)
     return dict(name=name, chain=chain.names, serialized=serialized, ctor=ctor, params=pkeys, init_only=init_only,
-                reads=reads, unstored=unstored, entries=list(entries))
+                reads=reads, unstored=unstored, entries=list(entries), custom=custom_restored(chain, name))
 
 
 def analyse_all(repo):
@@ -360,6 +382,7 @@ def gen(repo):
            "  fp_ctor : list string;              (* constructor parameters *)",
            "  fp_params : list string;            (* keys of self._params (model classes) *)",
            "  fp_init_only : list string;         (* assigned by the constructors and nowhere else *)",
+           "  fp_custom_restored : list string;   (* restored by the class's own deserialize (Preprocessor slots) *)",
            "  fp_ctor_unstored : list string;     (* transformer ctor parameters not stored as attributes *)",
            "  fp_entries : list string;           (* post-fit answer methods *)",
            "  fp_reads : list (string * string)   (* (method, attribute read through self) *)",
@@ -371,6 +394,7 @@ def gen(repo):
         out.append("  %s" % _sl(fp["ctor"]))
         out.append("  %s" % _sl(fp["params"]))
         out.append("  %s" % _sl(fp["init_only"]))
+        out.append("  %s" % _sl(fp["custom"]))
         out.append("  %s" % _sl(fp["unstored"]))
         out.append("  %s" % _sl(fp["entries"]))
         out.append("  [%s]." % "; ".join('("%s", "%s")' % r for r in fp["reads"]))
